@@ -58,6 +58,20 @@ fn run_clean(cfg: &Cfg, src: &str, tree_toks: &str) -> Outcome {
     let mut t3 = Vec::new();
     let pol = Policy { c: cfg };
 
+    // (0) a configuration that was used (and cloned) before its list methods were called behaves like
+    // the one built in one go
+    {
+        let reused = cfg.build_after_use();
+        let h2 = Html::parse(src);
+        h2.sanitize_with(&reused);
+        if h2.to_string() != out_str {
+            t3.push(format!(
+                "the same builder calls on a configuration that had already been used give a different result: {:?} vs {:?}",
+                &h2.to_string().chars().take(300).collect::<String>(),
+                &out_str.chars().take(300).collect::<String>()
+            ));
+        }
+    }
     // (a) the allow-list predicate on the output tree
     pol.walk(&after, 0, "output tree", &[], &mut t3);
     // (b) "as seen by an HTML parser": re-parse the serialised output with the real parser
